@@ -9,6 +9,12 @@
 (*     wp.rs.swapped, wp.rs.started) is released to run to its next pause  *)
 (*     point, and                                                          *)
 (*   - when the body of a running task returns (its gate),                 *)
+(*   - when real time passes ("sleep": longer than every configured tuning *)
+(*     timeout) while a submitter is waiting for its result - in the spec  *)
+(*     the passing of time enables nothing but Submit's own 50 ms timer,   *)
+(*     so a Tick is a step that changes no variable of WorkerPool; a       *)
+(*     submitter that gives up, a task that is dropped or run twice after  *)
+(*     such a pause shows in the recorded history,                         *)
 (* and it waits for the pool to settle after every such step.  Everything  *)
 (* else (workers, receives, released goroutines) happens by itself.  This  *)
 (* module restricts WorkerPool to exactly those behaviours: spontaneous    *)
@@ -23,14 +29,16 @@ EXTENDS WorkerPool, Json, IOUtils
 
 CONSTANTS Depth,      \* simulate: dump `hist` at this level
           MinBefore,  \* Stop / Resize are called only after this many submit calls
-          DumpOn      \* "" | "Bounded" | "NoFakeResult" | "NoPanic" | "Resolved": BFS dump mode
+          DumpOn,     \* "" | "Bounded" | "NoFakeResult" | "NoPanic" | "Resolved": BFS dump mode
+          MaxTicks    \* at most this many "time passes" steps per behaviour
 
 VARIABLES relS,   \* submitters released from the wp.chk pause point
           relT,   \* subset of {"stop", "resize"}: released caller goroutines
           hist,   \* environment steps so far
-          pad     \* idle steps after the behaviour has ended (simulate runs to a fixed depth)
+          pad,    \* idle steps after the behaviour has ended (simulate runs to a fixed depth)
+          ticks   \* "time passes" steps so far
 
-gvars == <<allvars, relS, relT, hist, pad>>
+gvars == <<allvars, relS, relT, hist, pad, ticks>>
 
 Step(a, k, who, n) == [a |-> a, k |-> k, who |-> who, n |-> n]
 
@@ -97,11 +105,18 @@ Env ==
 
 Idle == /\ pad' = pad + 1 /\ UNCHANGED <<vars, relS, relT, hist>>
 
-GenInit == Init /\ relS = {} /\ relT = {} /\ hist = << >> /\ pad = 0
+\* real time passes while somebody waits for a result (a task queued or running behind busy workers)
+Tick == /\ ticks < MaxTicks
+        /\ \E k \in Tasks : sub[k] = "waiting"
+        /\ ticks' = ticks + 1
+        /\ hist' = Append(hist, Step("sleep", 0, "", 0))
+        /\ UNCHANGED <<vars, relS, relT, pad>>
 
-GenNext == /\ IF ENABLED Spon THEN Spon
-              ELSE IF ENABLED Env THEN Env
-              ELSE Idle
+GenInit == Init /\ relS = {} /\ relT = {} /\ hist = << >> /\ pad = 0 /\ ticks = 0
+
+GenNext == /\ IF ENABLED Spon THEN Spon /\ UNCHANGED ticks
+              ELSE IF ENABLED (Env \/ Tick) THEN (Env /\ UNCHANGED ticks) \/ Tick
+              ELSE Idle /\ UNCHANGED ticks
            /\ UNCHANGED sz
 
 GenSpec == GenInit /\ [][GenNext]_gvars
@@ -129,5 +144,5 @@ DumpOnViolation ==
 
 BoundPad == pad <= 1
 \* exhaustive dump mode: states that differ only in the recorded history are the same state
-NoHist == <<allvars, relS, relT, pad>>
+NoHist == <<allvars, relS, relT, pad, ticks>>
 =============================================================================
